@@ -75,6 +75,20 @@ JudgeIO(e, Fr, Gr) ==
          IN IF IsUnspec(exp) THEN [IORes(TRUE, FALSE, TRUE) EXCEPT !.newf = <<ErrFrame>>, !.newd = <<e.dig>>]
             ELSE IF ~exp.err /\ (\E c \in 1..Len(exp.cols) : exp.cols[c].typ = "miss")
                  THEN [IORes(TRUE, TRUE, FALSE) EXCEPT !.newf = <<ErrFrame>>, !.newd = <<e.dig>>]
-            ELSE [IORes(ObsMatches(exp, e.obs) /\ proto /\ rtOK, FALSE, FALSE) EXCEPT !.newf = <<exp>>, !.newd = <<e.dig>>]
+            ELSE LET rc == RoundedCols(exp, e.a.conf) IN
+                 IF rc = {} THEN [IORes(ObsMatches(exp, e.obs) /\ proto /\ rtOK, FALSE, FALSE) EXCEPT !.newf = <<exp>>, !.newd = <<e.dig>>]
+                 ELSE IF \E c \in rc : \E r \in 1..exp.n : RoundMiss(e.a.fround, exp.cols[c].cells[r])
+                      THEN [IORes(TRUE, TRUE, FALSE) EXCEPT !.newf = <<ErrFrame>>, !.newd = <<e.dig>>]
+                 ELSE \* float columns: every cell is an admissible rounding of the delivered value; the rest as is
+                      LET shape == /\ e.obs.len = exp.n /\ e.obs.names = Names(exp) /\ e.obs.types = Types(exp)
+                                   /\ Len(e.obs.cols) = Len(exp.cols)
+                                   /\ \A c \in 1..Len(exp.cols) : Len(e.obs.cols[c]) = exp.n
+                          cellsOK == \A c \in 1..Len(exp.cols) :
+                                       IF c \in rc THEN \A r \in 1..exp.n : RoundOK(e.a.fround, exp.cols[c].cells[r], e.obs.cols[c][r])
+                                       ELSE e.obs.cols[c] = exp.cols[c].cells
+                          ok == shape /\ cellsOK /\ proto
+                          adopted == [exp EXCEPT !.cols = [c \in 1..Len(exp.cols) |->
+                                        IF c \in rc THEN [exp.cols[c] EXCEPT !.cells = e.obs.cols[c]] ELSE exp.cols[c]]]
+                      IN [IORes(ok, FALSE, FALSE) EXCEPT !.newf = <<IF ok THEN adopted ELSE ErrFrame>>, !.newd = <<e.dig>>]
     [] OTHER -> IORes(TRUE, TRUE, FALSE)
 =============================================================================
